@@ -433,6 +433,10 @@ def prove(ctx, module, generated=(), drivers=(), scratch=None):
         else:
             good += 1
     ctx.discharged = good
+    if any(b['kind'] == 'tie' for b in ctx.broken):
+        # a generated module could not be re-emitted from the current source: the theorems were
+        # only checked against the previous translation, which proves nothing about the code as it is
+        ctx.discharged = 0
     if ctx.tier == 'thorough':
         rc, out = run(['lake', 'env', 'leanchecker', module], cwd=LEAN_DIR, timeout=3000)
         ctx.extra['leanchecker'] = 'ok' if rc == 0 else 'failed'
